@@ -746,7 +746,8 @@ func (runInfo *runInfoStruct) runSwitchStmt(stmt *ast.SwitchStmt) {
 		runInfo.env = env
 		return
 	}
-	value := runInfo.rv
+	// the subject is the value it has now, whatever the case expressions do to its source
+	value := detachValue(runInfo.rv)
 
 	for _, switchCaseStmt := range stmt.Cases {
 		caseStmt := switchCaseStmt.(*ast.SwitchCaseStmt)
